@@ -243,7 +243,7 @@ def oracle_silent_smsc_busy_app(obs, interval, timeout):
     p0 = obs['probes'][0]
     if not li + interval - 0.05 <= p0 <= li + interval + 0.25:
         return f'the first enquire_link went out at t={p0:.2f}; the last PDU from the SMSC was received at t={li:.2f} (interval {interval} s)'
-    if obs['closed0'] is None or not p0 + timeout - 0.05 <= obs['closed0'] <= p0 + timeout + 0.8:
+    if obs['closed0'] is None or not p0 + timeout - 0.05 <= obs['closed0'] <= p0 + timeout + 1.7:      # start() gives each of the other tasks half a second to end
         return (f'the probe of t={p0:.2f} was never answered (time-out {timeout} s); the connection was '
                 f'{"closed at t=%.2f" % obs["closed0"] if obs["closed0"] else "never dropped"}')
     if not any(c > 0 for _t, c in obs['binds']):
